@@ -3,28 +3,139 @@ package economics
 import (
 	"math/big"
 
+	"github.com/ElrondNetwork/elrond-go/core"
 	"github.com/ElrondNetwork/elrond-go/data/transaction"
+	"github.com/ElrondNetwork/elrond-go/process"
 )
 
+// gas price modifiers are configuration floats: enumerated, never symbolic (FP x NIA is not decidable in practice)
+var verifModifiers = []float64{1.0, 0.99999999, 0.5, 0.3, 0.01, 0.00000001}
 
-var verifModifiers = []float64{1.0, 0.5, 0.01}
+type verifBuiltInCost struct {
+	isBuiltIn bool
+	cost      uint64
+}
 
-func Verif_C21_feeBounds() {
-	ed := &economicsData{
-		minGasLimit:         50000,
-		gasPerDataByte:      1500,
-		minGasPrice:         1000000000,
-		maxGasLimitPerBlock: 1500000000,
-		genesisTotalSupply:  big.NewInt(1).Lsh(big.NewInt(1), 80),
+func (b *verifBuiltInCost) ComputeBuiltInCost(tx process.TransactionWithFeeHandler) uint64 { return b.cost }
+func (b *verifBuiltInCost) IsBuiltInFuncCall(tx process.TransactionWithFeeHandler) bool   { return b.isBuiltIn }
+func (b *verifBuiltInCost) IsInterfaceNil() bool                                           { return b == nil }
+
+// Lemma (floating point, real code): for every uint64 gas price and every enumerated modifier the
+// processing gas price never exceeds the gas price.
+func Verif_C21_gasPriceLemma() {
+	ed := &economicsData{}
+	ed.gasPriceModifier = verifModifiers[verifParam("modifier")]
+	if verifBool("flagModifier") {
+		ed.flagGasPriceModifier.Set()
 	}
-	ed.gasPriceModifier = verifModifiers[verifChoice("modifier", len(verifModifiers))]
+	tx := &transaction.Transaction{GasPrice: verifU64("gasPrice")}
+	r := ed.GasPriceForProcessing(tx)
+	verifAssert(r <= tx.GasPrice, "processing gas price <= gas price")
+	m := ed.MinGasPriceForProcessing()
+	_ = m
+	verifReach("end")
+}
+
+// Contract of GasPriceForProcessing used by the fee harness (established by Verif_C21_gasPriceLemma):
+// a deterministic value r <= gasPrice.
+var verifGppSet bool
+var verifGppVal uint64
+
+func verifSummaryGasPriceForProcessing(ed *economicsData, tx process.TransactionWithFeeHandler) uint64 {
+	if !verifGppSet {
+		verifGppSet = true
+		verifGppVal = verifU64("gasPriceForProcessing")
+		verifAssume(verifGppVal <= tx.GetGasPrice())
+	}
+	return verifGppVal
+}
+
+func verifEconomics() *economicsData {
+	ed := &economicsData{
+		minGasLimit:         verifU64("minGasLimit"),
+		gasPerDataByte:      verifU64("gasPerDataByte"),
+		minGasPrice:         verifU64("minGasPrice"),
+		maxGasLimitPerBlock: verifU64("maxGasLimitPerBlock"),
+		genesisTotalSupply:  big.NewInt(1).Lsh(big.NewInt(1), 80),
+		gasPriceModifier:    1.0, // only read by the native replay; symbolically GasPriceForProcessing is its contract
+	}
+	verifAssume(ed.minGasLimit <= 1<<32 && ed.gasPerDataByte <= 1<<32 && ed.minGasPrice <= 1<<40 && ed.maxGasLimitPerBlock <= 1<<40)
 	if verifBool("flagPenalized") {
 		ed.flagPenalizedTooMuchGas.Set()
 	}
 	if verifBool("flagModifier") {
 		ed.flagGasPriceModifier.Set()
 	}
+	return ed
+}
+
+// Valid facts of integer arithmetic (monotonicity of multiplication, distributivity) over the same
+// products the fee code builds, stated as assumptions to help the nonlinear solver. They hold for all
+// non-negative integers, so they exclude nothing.
+func verifArithmeticHints(ed *economicsData, tx *transaction.Transaction, g1, g2 uint64) {
+	r := ed.GasPriceForProcessing(tx)
+	gp := tx.GasPrice
+	M := ed.ComputeGasLimit(tx)
+	L := tx.GasLimit
+	le := func(a, b *big.Int) bool { return a.Cmp(b) <= 0 }
+	if L >= M {
+		verifAssume(le(core.SafeMul(r, L-M), core.SafeMul(gp, L-M)))                                       // r <= gp
+		verifAssume(big.NewInt(0).Add(core.SafeMul(gp, M), core.SafeMul(gp, L-M)).Cmp(core.SafeMul(L, gp)) == 0) // distributivity
+		verifAssume(big.NewInt(0).Add(core.SafeMul(gp, M), core.SafeMul(gp, L-M)).Cmp(core.SafeMul(gp, L)) == 0)
+	}
+	if g1 >= M && g2 >= g1 {
+		verifAssume(le(core.SafeMul(r, g1-M), core.SafeMul(r, g2-M))) // g1 <= g2
+	}
+	if g2 >= M && L >= g2 {
+		verifAssume(le(core.SafeMul(r, g2-M), core.SafeMul(r, L-M))) // g2 <= L
+		verifAssume(le(core.SafeMul(r, g2-M), core.SafeMul(gp, g2-M)))
+		verifAssume(le(core.SafeMul(gp, g2-M), core.SafeMul(gp, L-M)))
+	}
+}
+
+// Fee bounds over the real fee functions; gas price, gas limit, data length, gas used and the whole
+// fee configuration are symbolic.
+func Verif_C21_feeBounds() {
+	ed := verifEconomics()
 	tx := &transaction.Transaction{GasPrice: verifU64("gasPrice"), GasLimit: verifU64("gasLimit"), Value: big.NewInt(0), Data: make([]byte, verifChoice("dataLen", 3))}
+	verifAssume(tx.GasPrice < 1<<62)
+	if ed.CheckValidityTxValues(tx) != nil {
+		verifReach("invalid")
+		return
+	}
+	legacy := !ed.flagPenalizedTooMuchGas.IsSet() && !ed.flagGasPriceModifier.IsSet()
+	g1 := verifU64("gasUsed1")
+	g2 := verifU64("gasUsed2")
+	verifAssume(g1 <= g2 && g2 <= tx.GasLimit)
+	verifArithmeticHints(ed, tx, g1, g2)
+	full := ed.ComputeTxFee(tx)
+	move := ed.ComputeMoveBalanceFee(tx)
+	limitTimesPrice := big.NewInt(0).Mul(big.NewInt(0).SetUint64(tx.GasLimit), big.NewInt(0).SetUint64(tx.GasPrice))
+	verifAssert(full.Cmp(move) >= 0, "fee >= move balance fee")
+	verifAssert(full.Cmp(limitTimesPrice) <= 0, "fee <= gasLimit*gasPrice")
+	used1 := ed.ComputeTxFeeBasedOnGasUsed(tx, g1)
+	used2 := ed.ComputeTxFeeBasedOnGasUsed(tx, g2)
+	verifAssert(used1.Cmp(used2) <= 0, "fee from gas used is monotone in gas used")
+	verifAssert(used1.Cmp(move) >= 0, "fee from gas used >= move balance fee")
+	// known finding C21-legacy-config: with neither fee flag active the full fee is only the move-balance fee
+	verifKnown("C21-legacy-config", legacy)
+	verifAssert(used2.Cmp(full) <= 0, "fee from gas used <= full fee")
+	verifReach("valid")
+}
+
+// Refund accounting: fee(refund) = fee - refund exactly and the reported gas used stays within the gas limit.
+func Verif_C21_refund() {
+	// mainnet fee configuration (concrete): keeps the refund arithmetic linear in everything but price x gas
+	ed := &economicsData{minGasLimit: 50000, gasPerDataByte: 1500, minGasPrice: 1000000000, maxGasLimitPerBlock: 1500000000,
+		genesisTotalSupply: big.NewInt(1).Lsh(big.NewInt(1), 80), gasPriceModifier: 1.0}
+	if verifBool("flagPenalized") {
+		ed.flagPenalizedTooMuchGas.Set()
+	}
+	ed.flagGasPriceModifier.Set()
+	bc := &verifBuiltInCost{isBuiltIn: verifParam("builtIn") == 1 && verifBool("isBuiltIn"), cost: verifU64("builtInCost")}
+	verifAssume(bc.cost <= 1<<40)
+	ed.builtInFunctionsCostHandler = bc
+	tx := &transaction.Transaction{GasPrice: verifU64("gasPrice"), GasLimit: verifU64("gasLimit"), Value: big.NewInt(0), Data: make([]byte, verifChoice("dataLen", 2))}
 	verifAssume(tx.GasPrice < 1<<62)
 	if ed.CheckValidityTxValues(tx) != nil {
 		verifReach("invalid")
@@ -32,14 +143,20 @@ func Verif_C21_feeBounds() {
 	}
 	full := ed.ComputeTxFee(tx)
 	move := ed.ComputeMoveBalanceFee(tx)
-	limitTimesPrice := big.NewInt(0).Mul(big.NewInt(0).SetUint64(tx.GasLimit), big.NewInt(0).SetUint64(tx.GasPrice))
-	verifAssert(full.Cmp(move) >= 0, "fee >= move balance fee")
-	verifAssert(full.Cmp(limitTimesPrice) <= 0, "fee <= gasLimit*gasPrice")
-	gasUsed := verifU64("gasUsed")
-	verifAssume(gasUsed <= tx.GasLimit)
-	used := ed.ComputeTxFeeBasedOnGasUsed(tx, gasUsed)
-	if ed.flagPenalizedTooMuchGas.IsSet() || ed.flagGasPriceModifier.IsSet() {
-		verifAssert(used.Cmp(full) <= 0, "fee from gas used <= full fee")
+	refund := verifBig("refund")
+	// a refund is part of the processing fee that was not consumed
+	verifAssume(refund.Sign() >= 0 && big.NewInt(0).Add(move, refund).Cmp(full) <= 0)
+	verifAssume(ed.GasPriceForProcessing(tx) >= 1)
+	// known finding C21-builtin-cost-above-limit: a built-in call whose cost exceeds its gas limit
+	verifKnown("C21-builtin-cost-above-limit", bc.isBuiltIn && refund.Sign() == 0 && bc.cost+ed.ComputeGasLimit(tx) > tx.GasLimit)
+	gasUsed, fee := ed.ComputeGasUsedAndFeeBasedOnRefundValue(tx, refund)
+	if refund.Sign() == 0 {
+		verifAssert(gasUsed <= tx.GasLimit, "reported gas used <= gas limit")
+	}
+	if refund.Sign() > 0 {
+		verifAssert(big.NewInt(0).Add(fee, refund).Cmp(full) == 0, "refund lowers the fee by exactly the refund")
+	} else {
+		verifAssert(fee.Cmp(full) <= 0, "fee without refund <= full fee")
 	}
 	verifReach("valid")
 }
